@@ -394,6 +394,69 @@ pub fn fe_reader_onebyte<B: MkBuilder>(s: &[u8]) -> FeTrace {
     FeTrace { name: "SmlReader(one-byte io::Read)", events, pos: None, finalize_n: None }
 }
 
+/// An `embedded_hal::serial::Read` over a slice. It has no notion of end of input: once the bytes
+/// are used up it answers with an error value (which the reader must report together with the
+/// pending byte count - the counterpart of the end-of-file error of the other sources).
+pub struct EhSlice<'a> {
+    pub s: &'a [u8],
+    pub i: usize,
+}
+impl<'a> embedded_hal::serial::Read<u8> for EhSlice<'a> {
+    type Error = u8;
+    fn read(&mut self) -> nb::Result<u8, u8> {
+        if self.i < self.s.len() {
+            self.i += 1;
+            Ok(self.s[self.i - 1])
+        } else {
+            Err(nb::Error::Other(0xee))
+        }
+    }
+}
+macro_rules! drain_eh_reader {
+    ($reader:expr, $len:expr, $events:expr) => {{
+        let mut calls = 0usize;
+        loop {
+            calls += 1;
+            if calls > $len + 8 {
+                $events.push(Ev::Hang);
+                break;
+            }
+            match $reader.next::<DecodedBytes>() {
+                None => {
+                    $events.push(Ev::AfterEnd("None from a source that never signals end of input".into()));
+                    break;
+                }
+                Some(r) => match conv_read(r) {
+                    // the source's error value at the end of the bytes: same role as end of file
+                    Ev::Io(IoK::Other, 0) => break,
+                    Ev::Io(IoK::Other, n) => {
+                        $events.push(Ev::Io(IoK::Eof, n));
+                        break;
+                    }
+                    e => $events.push(e),
+                },
+            }
+        }
+        for _ in 0..2 {
+            match $reader.next::<DecodedBytes>().map(conv_read) {
+                Some(Ev::Io(IoK::Other, 0)) => {}
+                Some(x) => $events.push(Ev::AfterEnd(x.short())),
+                None => $events.push(Ev::AfterEnd("None".into())),
+            }
+        }
+    }};
+}
+pub fn fe_reader_eh<B: MkBuilder>(s: &[u8]) -> FeTrace {
+    let mut events = vec![];
+    if let Err(p) = guarded(|| {
+        let mut r = B::builder().from_eh_reader(EhSlice { s, i: 0 });
+        drain_eh_reader!(r, s.len(), events);
+    }) {
+        events.push(Ev::Panic(p));
+    }
+    FeTrace { name: "SmlReader(embedded-hal serial)", events, pos: None, finalize_n: None }
+}
+
 /// An `io::Read` that hands out chunks of varying size (cycling through `pattern`, never more than
 /// the caller asks for) and reports `Interrupted` before every `intr`-th successful read - all of
 /// which `Read`'s contract allows and none of which may change a single result.
@@ -527,6 +590,7 @@ impl<'a> BufVisitor for RunFes<'a> {
             v.push(fe_reader_cursor::<B>(s));
             v.push(fe_reader_onebyte::<B>(s));
             v.push(fe_push_default::<B>(s));
+            v.push(fe_reader_eh::<B>(s));
             for w in 0..CHUNK_PATTERNS.len() {
                 v.push(fe_reader_chunked::<B>(s, w));
             }
@@ -572,6 +636,16 @@ pub fn run_default_readers(s: &[u8]) -> Vec<FeTrace> {
             events.push(Ev::Panic(p));
         }
         out.push(FeTrace { name: "SmlReader::from_reader (default 8 KiB)", events, pos: None, finalize_n: None });
+    }
+    {
+        let mut events = vec![];
+        if let Err(p) = guarded(|| {
+            let mut r = SmlReader::from_eh_reader(EhSlice { s, i: 0 });
+            drain_eh_reader!(r, s.len(), events);
+        }) {
+            events.push(Ev::Panic(p));
+        }
+        out.push(FeTrace { name: "SmlReader::from_eh_reader (default 8 KiB)", events, pos: None, finalize_n: None });
     }
     out
 }
